@@ -1139,6 +1139,7 @@ BUILTINS = {
     'enumerate': PyFunc(_enumerate, 'enumerate'),
     'zip': PyFunc(_zip, 'zip'),
     'map': PyFunc(_map, 'map'),
+    '__vf_prod__': PyFunc(lambda interp, v: _prod(interp, v, 1), 'math.prod'),      # used by the accumulation-loop rule
     'reversed': PyFunc(_reversed, 'reversed'),
     'any': PyFunc(lambda interp, v: _quant(interp, v, False), 'any'),
     'all': PyFunc(lambda interp, v: _quant(interp, v, True), 'all'),
